@@ -100,7 +100,7 @@ def impl(op, a):
 
 
 # ------------------------------------------------------------------ independent transcription
-def fd_layout(ids, flags, off, data, meta):
+def fd_layout(ids, flags, off, data, meta, keep_direction=False):
     """CCSDS 727.0-B-5 table 5-14, arithmetic only (the Coq Spec.fd_layout is evaluated too, op 1450)."""
     mode, large, crc, direction, seg = flags
     body = []
@@ -109,7 +109,7 @@ def fd_layout(ids, flags, off, data, meta):
         body += [meta[1] * 64 + len(md)] + md
     body += list(off.to_bytes(8 if large else 4, "big")) + list(data)
     dlen = len(body) + (2 if crc else 0)
-    pre = h5.layout(ids, [mode, large, crc, 0, seg], [1, 1 if meta and meta[0] == 1 else 0, dlen]) + body
+    pre = h5.layout(ids, [mode, large, crc, direction if keep_direction else 0, seg], [1, 1 if meta and meta[0] == 1 else 0, dlen]) + body
     if crc:
         c = h5.crc16_bitwise(pre)
         pre = pre + [c >> 8, c & 0xFF]
@@ -345,7 +345,7 @@ def _check_decoded(b, ires, what):
     hl = 4 + 2 * ids[1] + ids[5]
     pl = hl + b[1] * 256 + b[2]
     try:
-        exp = fd_layout(ids, flags, off, data, meta)
+        exp = fd_layout(ids, flags, off, data, meta, keep_direction=True)   # the decoder keeps the direction bit
     except (OverflowError, ValueError):
         exp = None
     if lens != [hl, pl] or exp != list(b[:pl]):
